@@ -56,8 +56,8 @@ func TestCheck(t *testing.T) {
 	c := engine.Start(t, "C10")
 	c.SetLevel("fault_enumeration")
 	thorough := c.Thorough()
-	depth := engine.Pick(c, 2, 12)
-	msets := engine.Pick(c, 1, 2)
+	depth := engine.Pick(c, 4, 12)
+	msets := engine.Pick(c, 2, 2)
 	c.SetRule(fmt.Sprintf("E4 fault enumeration: per flow (final request on a cloned pre-state, both routers) the fault-free run, then every plan of up to %d failing dynamic journal positions (successors of a plan enumerated over the journal observed under that plan) x every error kind per position, then 'every call of M fails' for every method name seen in any journal of the flow (thorough: also every unordered pair of names); distinct = distinct (part, oracle rule, observed outcome class) triples", depth))
 	c.Assume(
 		"trusted base: refstore (reference storage, journals every call before applying the fault plan; an injected error is returned before any state change of that call), rig HTTP recorder, synctest clock frozen at the epoch for every execution",
